@@ -170,6 +170,7 @@ func corsBuild(cfg corsCfg, withFilter bool) corsWorld {
 	ws.Route(ws.DELETE("/u2").To(hnd("DELETE u2")))
 	ws.Route(ws.GET("/d/{id:(x)|[0-9]+}").To(hnd("GET d")))
 	ws.Route(ws.POST("/d/{id:(x)|[0-9]+}/c").To(hnd("POST d/c")))
+	ws.Route(ws.PUT("/caf\u00e9").To(hnd("PUT cafe"))) // reaches the server percent-encoded
 	c.Add(ws)
 	return w
 }
